@@ -35,49 +35,35 @@ TEXT_ATTRS = {"__module__", "__qualname__", "__name__", "name"}
 
 
 def hash_slice(chk: Check):
-    """Functions reachable from the identifier entry points inside core.objects (name-based
-    resolution: self.m, Class.m, module functions, properties read as attributes)"""
+    """Functions that compute identifiers: every method of HashComputer / ConfigPath / Identifier, the identifier
+    properties of ConfigInformation with collect_pre_tasks (and its nested walker), and the module-level predicates
+    they call (class-based, so that it does not depend on how receivers are named)"""
     tree = chk.tree
     mod = tree.mod("core.objects")
-    classes = ["HashComputer", "ConfigPath", "ConfigInformation", "Identifier"]
-    cand = {}
-    for c in classes:
-        k = tree.cls("core.objects", c)
-        for name, f in k.methods.items():
-            cand.setdefault(name, []).append(f)
+    out = {}
+    for c in ("HashComputer", "ConfigPath", "Identifier"):
+        for f in tree.cls("core.objects", c).methods.values():
+            out[f.key] = f
+    ci = tree.cls("core.objects", "ConfigInformation")
+    for name in ("identifiers", "raw_identifier", "full_identifier", "collect_pre_tasks"):
+        if name not in ci.methods:
+            raise Undecided(f"ConfigInformation.{name} not found")
+        out[ci.methods[name].key] = ci.methods[name]
+    # nested definitions and module-level functions called from the slice
+    changed = True
     modfuncs = {f.qual: f for f in tree.funcs.values() if f.module is mod and "." not in f.qual}
-    todo = [tree.func(m, q) for m, q in SLICE_ROOTS]
-    seen = {}
-    while todo:
-        f = todo.pop()
-        if f.key in seen:
-            continue
-        seen[f.key] = f
-        # nested function/class definitions inside f are part of it
-        for g in tree.funcs.values():
-            if g.module is f.module and g.qual.startswith(f.qual + ".") and g.key not in seen:
-                todo.append(g)
-        for n in body_walk(f.node):
-            names = []
-            if isinstance(n, ast.Call):
-                d = dotted(n.func)
-                if d:
-                    names.append(d.split(".")[-1])
-                    if d in modfuncs:
-                        todo.append(modfuncs[d])
-            elif isinstance(n, ast.Attribute):
-                names.append(n.attr)
-            for nm in names:
-                if nm in ("update", "get", "set", "values", "add", "append", "pop", "items", "validate", "submit", "seal", "tags"):
-                    # common container method names: only the hasher's own `update` is followed
-                    if nm == "update" and isinstance(n, ast.Call) and dotted(n.func) == "self.update" and f.cls and f.cls.qual == "HashComputer":
-                        todo.extend(cand.get(nm, [])[:1])
-                    continue
-                for g in cand.get(nm, []):
-                    if g.cls.qual in ("HashComputer", "ConfigPath", "Identifier") or nm in (
-                        "identifiers", "raw_identifier", "full_identifier", "identifier", "collect_pre_tasks"):
-                        todo.append(g)
-    return list(seen.values())
+    while changed:
+        changed = False
+        for f in list(out.values()):
+            for g in tree.funcs.values():
+                if g.module is f.module and g.qual.startswith(f.qual + ".") and g.key not in out:
+                    out[g.key] = g
+                    changed = True
+            for n in body_walk(f.node):
+                if isinstance(n, ast.Call) and isinstance(n.func, ast.Name) and n.func.id in modfuncs and modfuncs[n.func.id].key not in out:
+                    out[modfuncs[n.func.id].key] = modfuncs[n.func.id]
+                    changed = True
+    return list(out.values())
 
 
 def is_sink_call(c: ast.Call, hashers) -> bool:
@@ -85,6 +71,10 @@ def is_sink_call(c: ast.Call, hashers) -> bool:
     if d in ("self._hashupdate", "self.update"):
         return True
     p = d.split(".")
+    if len(p) == 2 and p[1] in ("_hashupdate",) :
+        return True
+    if len(p) == 2 and p[1] == "update" and p[0] in hashers.get("computers", ()) if isinstance(hashers, dict) else False:
+        return True
     return p[-1] == "update" and len(p) >= 2 and (".".join(p[:-1]) in hashers or ".".join(p[:-1]) == "self._hasher")
 
 
